@@ -47,11 +47,14 @@ the counter is little-endian and `handler` tests `p.buf[0] > 0` -/
 theorem wake_messages :
     trigger_msg = [0, 0, 0, 0, 0, 0, 0, 1] ∧ close_msg = [1, 0, 0, 0, 0, 0, 0, 0] ∧ trigger_coalesceAbove = 1 := by decide
 
-/-- the wake-up branch drains the eventfd BEFORE it re-arms the coalescing flag, and closes both descriptors on the close message:
+/-- the wake-up branch drains the eventfd BEFORE it re-arms the coalescing flag, closes both descriptors on the close message
+and hands the hang-ups queued earlier in the batch to `onhups()` before it returns true:
 the order of `Netpoll.Poll.Wake`'s `read` / `store` steps (with the other order a `Trigger` between the two is swallowed:
-flag = 1 and counter = 0 when the loop blocks again, so every later `Trigger` coalesces and nothing wakes the loop) -/
+flag = 1 and counter = 0 when the loop blocks again, so every later `Trigger` coalesces and nothing wakes the loop), and
+`Netpoll.Poll.handleBatch` running the queued `OnHup`s of a batch in which `handler` returns true (without the `onhups()`
+call an operator detached in front of the close message never learns of the hang-up) -/
 theorem handler_wake_order :
     handler_wake_ops = ["syscall.Read(p.wop.FD,p.buf)", "atomic.StoreUint32(&p.trigger,0)",
-                        "syscall.Close(p.wop.FD)", "syscall.Close(p.fd)"] := by decide
+                        "syscall.Close(p.wop.FD)", "syscall.Close(p.fd)", "p.onhups()"] := by decide
 
 end Netpoll.Tie.Poll
